@@ -45,6 +45,9 @@ const ALPHABETS: &[&[&str]] = &[
     &["a", "b", ".", "-"],
     &["#", "a", "%", "\\"],
     &["a", "\u{0301}", "b"],
+    // spacing diacritics whose NFKC / NFKD form starts with a space: "don\u{b4}t" splits in two
+    &["n", "\u{00b4}", "t"],
+    &["a", "\u{00a8}", "b"],
 ];
 
 fn gen_word(rng: &mut Rng, alpha: &[&str]) -> String {
